@@ -98,7 +98,9 @@ def _r1(ctx: Context, tree: str, N: Names) -> None:
     rep.floor("C06.R1", f"calls of the assignment pass ({tree})", ncall, 3)
     # _close_connections
     cc = N.func("connection_pool", "AsyncConnectionPool._close_connections")
-    loops = [n for n in own_nodes(cc.node) if isinstance(n, ast.For) and norm(n.iter) == cc.positional_params()[1]]
+    pp = cc.positional_params()
+    list_param = pp[1] if cc.cls is not None and len(pp) > 1 else pp[0] if pp else "?"      # method (after self) or plain function
+    loops = [n for n in own_nodes(cc.node) if isinstance(n, ast.For) and norm(n.iter) == list_param]
     ok = bool(loops) and any(isinstance(s, ast.Expr) and norm(s.value).replace("await", "") in (f"{norm(loops[0].target)}.aclose()", f"{norm(loops[0].target)}.close()")
                              and not guard_atoms(guards_of(s)) - guard_atoms(guards_of(loops[0])) for s in loops[0].body) if loops else False
     rep.ob("C06.R1", fkey(tree, cc, "closes-each"), ok, where(cc), "_close_connections closes every element unconditionally")
